@@ -129,29 +129,49 @@ func (e *Env) getVersionShape(gv *types.Func) {
 	c := e.C
 	who := fname(gv)
 	sf := e.P.SSAFunc(gv)
-	leaves, err := ir.Leaves(sf, ir.LeafOptions{Forward: true, Effects: true, Inline: e.inlineHelpers()})
+	// the label parser (func(string) Version) stays a call: it is decided on its own by the version-table rule
+	verT0 := gv.Type().(*types.Signature).Results().At(0).Type()
+	leaves, err := ir.Leaves(sf, ir.LeafOptions{Forward: true, Effects: true, Inline: e.inlineHelpers(parsersOf(gv.Pkg(), verT0)...)})
 	if err != nil {
 		c.Undecided("version-prefix", who, e.P.Pos(gv.Pos()), err.Error())
 		return
 	}
-	var sp *ir.Term
+	// the tokeniser: strings.Split(vec, ":") with len == 2, or strings.Cut(vec, ":") with found and no further ':'
+	// in the rest (the same prefixes pass, with the same two parts)
+	var sp, cut *ir.Term
 	for _, lf := range leaves {
 		for _, ef := range lf.Effects {
 			if ef.Kind == "call" && isCallOf(ef.Val, "strings.Split") {
 				sp = ef.Val
 			}
+			if ef.Kind == "call" && isCallOf(ef.Val, "strings.Cut") {
+				cut = ef.Val
+			}
 		}
 	}
-	if sp == nil {
-		// another tokeniser (strings.Cut, an index scan, ...): whether it accepts exactly "CVSS:<label>" is not decided here
-		c.Undecided("version-prefix", who, e.P.Pos(gv.Pos()), `the prefix is not split with strings.Split(<parameter>, ":"); the rule knows no equivalence for the tokeniser used`)
+	if (sp == nil) == (cut == nil) {
+		// another tokeniser (an index scan, ...): whether it accepts exactly "CVSS:<label>" is not decided here
+		c.Undecided("version-prefix", who, e.P.Pos(gv.Pos()), `the prefix is not taken apart by exactly one strings.Split(<parameter>, ":") or strings.Cut(<parameter>, ":"); the rule knows no equivalence for the tokeniser used`)
 		return
 	}
-	if len(sp.Args) != 2 || sp.Args[0].Op != ir.OParam || !isStringConst(sp.Args[1], ":") {
-		c.Fail("version-prefix", who, e.P.Pos(gv.Pos()), `the prefix is not split as strings.Split(<parameter>, ":")`)
-		return
+	var shape []*ir.Term
+	var part0, part1 *ir.Term
+	if sp != nil {
+		if len(sp.Args) != 2 || sp.Args[0].Op != ir.OParam || !isStringConst(sp.Args[1], ":") {
+			c.Fail("version-prefix", who, e.P.Pos(gv.Pos()), `the prefix is not split as strings.Split(<parameter>, ":")`)
+			return
+		}
+		shape = []*ir.Term{ir.Bin("==", intConst(2), lenOf(sp))}
+		part0, part1 = idx(sp, 0), idx(sp, 1)
+	} else {
+		if len(cut.Args) != 2 || cut.Args[0].Op != ir.OParam || !isStringConst(cut.Args[1], ":") {
+			c.Fail("version-prefix", who, e.P.Pos(gv.Pos()), `the prefix is not taken apart as strings.Cut(<parameter>, ":")`)
+			return
+		}
+		part0, part1 = ext(cut, 0), ext(cut, 1)
+		contains := ir.Call(e.externFunc(gv.Pkg(), "strings", "Contains"), part1, ir.Const(constant.MakeString(":"), types.Typ[types.String]))
+		shape = []*ir.Term{ext(cut, 2), ir.NotCond(contains)}
 	}
-	gLen := ir.Bin("==", intConst(2), lenOf(sp))
 	verT := gv.Type().(*types.Signature).Results().At(0).Type()
 	ps := parsersOf(gv.Pkg(), verT)
 	nAcc := 0
@@ -162,15 +182,18 @@ func (e *Env) getVersionShape(gv *types.Func) {
 		cons := e.pathName(who, lf)
 		if isNilConst(lf.Ret[1]) {
 			nAcc++
-			okLen := hasGuard(lf, gLen)
+			okLen := true
+			for _, g := range shape {
+				okLen = okLen && hasGuard(lf, g)
+			}
 			okTag := false
 			for _, g := range lf.Guards {
-				if s, ok := nameEq(g, idx(sp, 0), "=="); ok && s == "CVSS" {
+				if s, ok := nameEq(g, part0, "=="); ok && s == "CVSS" {
 					okTag = true
 				}
 			}
 			r := lf.Ret[0]
-			okVal := r.Op == ir.OCall && len(r.Args) == 1 && r.Args[0].Key() == idx(sp, 1).Key()
+			okVal := r.Op == ir.OCall && len(r.Args) == 1 && r.Args[0].Key() == part1.Key()
 			if okVal {
 				okVal = false
 				for _, g := range ps {
